@@ -162,6 +162,7 @@ var c12Pool = []c12Req{
 	{`{cats{name ghost}}`, nil}, // a field of the schema the Go type has no field or method for
 	{`{cats{name @skip(if: true) nick @include(if: false) age}}`, nil},
 	{`{first{lives(extra: "bad")}}`, nil},
+	{`{cats{... @include(if: true) {name} ... on Cat @skip(if: false) {nick}} first @include(if: true) {age}}`, nil},
 }
 
 const c12NoAnswer = "no answer within 4s (deadlock)"
